@@ -242,10 +242,12 @@ class H5Group:
             # del self.group
             self.group = None
 
-    def delete_all(self, eid):
+    def delete_all(self, objs):
         """
-        Deletes all references to a given list of objects, identified by their
-        entity_id, below the current object.
+        Deletes all links to the given objects (H5Group / H5DataSet handles)
+        below the current object. An object is identified by what it *is*
+        (HDF5 object identity), not by its entity_id: a copy that kept the
+        id of its source is a different object and keeps its links.
         """
         # Use visit_items to traverse groups and check their children.
         # visit_items visits each item only once, so instead of checking
@@ -254,16 +256,23 @@ class H5Group:
         # We delete the child as soon as we find it; this doesn't cause
         # iteration issues since it's deleted before descending into the
         # children of the current group
+        targets = []
+        for obj in objs:
+            h5obj = getattr(obj, "group", None)
+            if h5obj is None:
+                h5obj = getattr(obj, "dataset", None)
+            if h5obj is not None:
+                targets.append(h5obj)
 
-        def delete_by_id(_, obj):
+        def delete_links_to(_, obj):
             if not isinstance(obj, h5py.Group):
                 return
             grp = self.create_from_h5obj(obj)
             for child in grp:
-                if child.get_attr("entity_id") in eid:
+                if child.h5obj in targets:
                     del grp[child.name]
 
-        self._group.visititems(delete_by_id)
+        self._group.visititems(delete_links_to)
 
     def set_attr(self, name, value):
         self._create_h5obj()
